@@ -19,6 +19,180 @@ pub enum SOp {
     Truncate(usize),
     WriteCString(usize, String, bool), // cell, text, through the writer
     Cell(Op),                          // plain accessor op, executed by C04's monitor
+    /// several steps on ONE long-lived BinArchiveWriter (cursor and any cached state persist)
+    WriterSeq(Vec<WStep>),
+}
+
+#[derive(Clone, Debug)]
+pub enum WStep {
+    Seek(usize),
+    AllocAtEnd(usize),
+    Alloc(usize, bool),
+    WriteU32(u32),
+    WriteBytes(Vec<u8>),
+    WriteString(Option<String>),
+    WriteLabel(String),
+}
+
+/// Run a sequence of steps on one writer; the model is stepped alongside and every step's
+/// result, `size()` and (after a success) `tell()` are compared. Returns false on violation.
+pub fn exec_writer_seq(c: &mut Case, real: &mut BinArchive, model: &mut RefArchive, steps: &[WStep]) -> bool {
+    let be = model.be;
+    c.sit("long_lived_writer_sequence");
+    let before = model.clone();
+    let mut trace: Vec<(String, Result<(), String>, usize, usize)> = Vec::new();
+    let r = c.lib(&format!("WriterSeq{:?}", steps), || {
+        let mut w = BinArchiveWriter::new(real, 0);
+        for s in steps {
+            let res: Result<(), String> = match s {
+                WStep::Seek(p) => {
+                    w.seek(*p);
+                    Ok(())
+                }
+                WStep::AllocAtEnd(n) => {
+                    w.allocate_at_end(*n);
+                    Ok(())
+                }
+                WStep::Alloc(n, ge) => w.allocate(*n, *ge).map_err(|e| e.to_string()),
+                WStep::WriteU32(v) => w.write_u32(*v).map_err(|e| e.to_string()),
+                WStep::WriteBytes(b) => w.write_bytes(b).map_err(|e| e.to_string()),
+                WStep::WriteString(v) => w.write_string(v.as_deref()).map_err(|e| e.to_string()),
+                WStep::WriteLabel(l) => w.write_label(l).map_err(|e| e.to_string()),
+            };
+            trace.push((format!("{:?}", s), res, w.size(), w.tell()));
+        }
+    });
+    if r.is_none() {
+        return false;
+    }
+    // step the model
+    let mut pos = 0usize;
+    for (i, s) in steps.iter().enumerate() {
+        let (desc, res, size_after, tell_after) = &trace[i];
+        let exp_ok = match s {
+            WStep::Seek(p) => {
+                pos = *p;
+                true
+            }
+            WStep::AllocAtEnd(n) => {
+                model.allocate_at_end(*n);
+                true
+            }
+            WStep::Alloc(n, ge) => {
+                if pos == model.size() {
+                    model.allocate_at_end(*n);
+                    true
+                } else {
+                    model.allocate(pos, *n, *ge)
+                }
+            }
+            WStep::WriteU32(v) => {
+                if model.range_ok(pos, 4) {
+                    let b = if be { v.to_be_bytes() } else { v.to_le_bytes() };
+                    model.data[pos..pos + 4].copy_from_slice(&b);
+                    pos += 4;
+                    true
+                } else {
+                    false
+                }
+            }
+            WStep::WriteBytes(b) => {
+                if b.is_empty() {
+                    res.is_ok() // zero-length write: only "no panic, no change" is required
+                } else if model.range_ok(pos, b.len()) {
+                    model.data[pos..pos + b.len()].copy_from_slice(b);
+                    pos += b.len();
+                    true
+                } else {
+                    false
+                }
+            }
+            WStep::WriteString(v) => {
+                if model.cell_ok(pos) {
+                    match v {
+                        Some(s) => {
+                            model.text.insert(pos, s.clone());
+                        }
+                        None => {
+                            model.text.remove(&pos);
+                        }
+                    }
+                    pos += 4;
+                    true
+                } else {
+                    false
+                }
+            }
+            WStep::WriteLabel(l) => model.write_label(pos, l),
+        };
+        let ctx = |m: String| format!("step #{} {} of one long-lived writer {:?} on {}: {}", i, desc, steps, before.describe(), m);
+        if exp_ok != res.is_ok() {
+            c.fail("writer_sequence", "writer_seq_result", ctx(format!("returned {:?}, the positional rule at the cursor gives {}", res, if exp_ok { "Ok" } else { "Err" })));
+            return false;
+        }
+        if *size_after != model.size() {
+            c.fail("writer_sequence", "writer_seq_size", ctx(format!("writer.size() = {}, expected {}", size_after, model.size())));
+            return false;
+        }
+        if res.is_ok() {
+            if *tell_after != pos {
+                c.fail("writer_sequence", "writer_seq_cursor", ctx(format!("cursor at {}, expected {}", tell_after, pos)));
+                return false;
+            }
+        } else {
+            pos = *tell_after; // cursor after a failed access is not asserted
+        }
+    }
+    match archive::observe(real, be) {
+        Err(e) => {
+            c.fail("state", "state:WriterSeq", format!("inconsistent state after {:?}: {}", steps, e));
+            false
+        }
+        Ok(after) => {
+            if let Some(d) = archive::diff(model, &after) {
+                c.fail("writer_sequence", "writer_seq_state", format!("after the writer sequence {:?} on {}: {}; got {}", steps, before.describe(), d, after.describe()));
+                *model = after;
+                false
+            } else {
+                true
+            }
+        }
+    }
+}
+
+pub fn gen_writer_seq(rng: &mut Rng, m: &RefArchive) -> Vec<WStep> {
+    let size = m.size();
+    let mut v = Vec::new();
+    let n = rng.range(2, 7);
+    let mut est = size;
+    for _ in 0..n {
+        let al = |rng: &mut Rng, max: usize| (rng.range(0, max) / 4) * 4;
+        v.push(match rng.below(10) {
+            0 | 1 => WStep::Seek(match rng.below(4) {
+                0 => size, // the size the archive had when the writer was created
+                1 => est,
+                _ => al(rng, est),
+            }),
+            2 | 3 => {
+                let k = 4 * rng.range(1, 4);
+                est += k;
+                WStep::AllocAtEnd(k)
+            }
+            4 | 5 => {
+                let k = 4 * rng.range(0, 3);
+                est += k;
+                WStep::Alloc(k, rng.bool())
+            }
+            6 => WStep::WriteU32(rng.u32() | 1),
+            7 => {
+                let l = rng.range(0, 9);
+                WStep::WriteBytes((0..l).map(|_| rng.u8() | 1).collect())
+            }
+            8 => WStep::WriteString(if rng.chance(1, 4) { None } else { Some(gen_ident(rng, 3)) }),
+            _ => WStep::WriteLabel(gen_ident(rng, 3)),
+        });
+    }
+    v
 }
 
 fn sit_for(c: &mut Case, m: &RefArchive, op: &SOp) {
@@ -114,6 +288,9 @@ pub fn exec(c: &mut Case, real: &mut BinArchive, model: &mut RefArchive, op: &SO
     if let SOp::Cell(o) = op {
         return c04::exec(c, real, model, o, false);
     }
+    if let SOp::WriterSeq(steps) = op {
+        return exec_writer_seq(c, real, model, steps);
+    }
     let be = model.be;
     sit_for(c, model, op);
     let before = match archive::observe(real, be) {
@@ -164,7 +341,7 @@ pub fn exec(c: &mut Case, real: &mut BinArchive, model: &mut RefArchive, op: &SO
                 Some(false)
             }
         }
-        SOp::Cell(_) => unreachable!(),
+        SOp::Cell(_) | SOp::WriterSeq(_) => unreachable!(),
     };
     let what = format!("{:?}", op);
     let res = c.lib(&what, || -> Result<(), String> {
@@ -197,7 +374,7 @@ pub fn exec(c: &mut Case, real: &mut BinArchive, model: &mut RefArchive, op: &SO
                     real.write_c_string(*cell, s.clone()).map_err(|e| e.to_string())
                 }
             }
-            SOp::Cell(_) => unreachable!(),
+            SOp::Cell(_) | SOp::WriterSeq(_) => unreachable!(),
         }
     });
     let res = match res {
@@ -412,6 +589,9 @@ fn gen_sop(rng: &mut Rng, m: &RefArchive) -> SOp {
         _ => 4 * rng.range(1, 6),
     };
     let huge = |rng: &mut Rng| usize::MAX - rng.range(0, 8);
+    if rng.chance(1, 12) {
+        return SOp::WriterSeq(gen_writer_seq(rng, m));
+    }
     match rng.below(24) {
         0 | 1 | 2 => {
             let a = if rng.chance(1, 8) { rng.range(0, size + 6) } else { aligned(rng, size) };
@@ -513,6 +693,7 @@ pub const REQUIRED: &[&str] = &[
     "truncate_cstr_beyond_cut",
     "truncate_pointer_across_cut",
     "truncate_noop_beyond_end",
+    "long_lived_writer_sequence",
 ];
 
 pub fn run(cx: &mut Ctx) {
@@ -602,6 +783,19 @@ pub fn run(cx: &mut Ctx) {
                 run_seq(c, &start, &[SOp::Allocate(usize::MAX - k, 4, false)]);
                 run_seq(c, &start, &[SOp::Truncate(usize::MAX - k)]);
                 run_seq(c, &start, &[SOp::WriterAllocate(usize::MAX - k, 4, false)]);
+            }
+        }
+    });
+    // directed: one long-lived writer (append, go back to the old end, insert there; insert, then write past the old size)
+    cx.case("long_lived_writer", |c| {
+        for be in [false, true] {
+            for which in 0..3 {
+                let start = pattern(3, which, be);
+                for ge in [false, true] {
+                    run_seq(c, &start, &[SOp::WriterSeq(vec![WStep::AllocAtEnd(8), WStep::Seek(12), WStep::WriteU32(0xAABBCCDD), WStep::Seek(12), WStep::Alloc(4, ge), WStep::WriteLabel("L".into())])]);
+                    run_seq(c, &start, &[SOp::WriterSeq(vec![WStep::Seek(4), WStep::Alloc(8, ge), WStep::Seek(10), WStep::WriteBytes(vec![1, 2, 3, 4, 5, 6, 7, 8, 9]), WStep::Seek(16), WStep::WriteU32(7)])]);
+                    run_seq(c, &start, &[SOp::WriterSeq(vec![WStep::Seek(12), WStep::Alloc(4, ge), WStep::Alloc(4, ge), WStep::Seek(12), WStep::Alloc(4, ge), WStep::WriteString(Some("s".into()))])]);
+                }
             }
         }
     });
